@@ -16,3 +16,9 @@ def mech(tier, seed):
 
 def generators(tier, seed):
     return [dict(module="MC_C06", cfg="MC_C06_q", workers=4)]
+
+MANIFEST = dict(
+    design_ref='DESIGN.md §5 C06',
+    text='TLC enumerates 8 orderings x every N in 0..24 x WHERE x 1/2 roots x bfs/dfs on world W5; the limited run must have min(N,M) rows, be a sub-multiset of the unlimited run and, when ordered, be sorted with no excluded row sorting before an included one (ties at the cut free). The TopN buffer (TopN.tla, implementation-shaped) is model-checked for every arrival order of <= 6 keys x limits 0..8 against the least-N multiset.',
+    note="Trusted: TLC, Order/Eval, the unlimited run as definition of M. Archives are covered by C19's generator.",
+    technique='TLC enumeration + paired replay + TLA+ judge; TLC model checking of TopN')
